@@ -161,6 +161,9 @@ fn level(cx: &mut Ctx, sum: &mut Summary, image: &[u8], reference: Option<&Obs>,
     }
     let mut bad = 0;
     let mut seen: std::collections::BTreeSet<String> = Default::default();
+    // reported violations are de-duplicated among themselves only (a model-predicted known finding of the
+    // same class must not hide a later instance the model does not predict)
+    let mut seen_viol: std::collections::BTreeSet<String> = Default::default();
     for (k, idx) in &pts {
         let o = &obs[*idx];
         sum.branch(&format!("depth-{depth}"));
@@ -178,7 +181,7 @@ fn level(cx: &mut Ctx, sum: &mut Summary, image: &[u8], reference: Option<&Obs>,
             if cx.verbose && first { println!("  FAIL {path_desc} k={k} {} :: {sig} :: {}", rec.ops[*k - 1].brief(), &what[..what.len().min(300)]); }
             if cx.known.contains(&sig) && (cx.drv.is_none() || model_agrees[*idx]) {
                 sum.known_finding(&sig, &what, case);
-            } else if first {
+            } else if seen_viol.insert(sig.clone()) {
                 sum.oracle_violation(&sig, &what, case);
             }
         } else {
